@@ -95,8 +95,11 @@ func goData(m map[string]ref.Value) map[string]interface{} {
 	return out
 }
 
+var lastSources []srcFile
+
 // compile hands the sources to the real compiler.
 func compile(files []srcFile, globals map[string]ref.Value) (*soyhtml.Tofu, error) {
+	lastSources = files
 	b := soy.NewBundle()
 	for _, f := range files {
 		b.AddTemplateString(f.Name, f.Text)
@@ -128,6 +131,7 @@ func armRenderBudget() {
 func render(tofu *soyhtml.Tofu, entry string, d map[string]ref.Value, ij *ref.Value, msgs soymsg.Bundle) (string, error) {
 	var buf bytes.Buffer
 	armRenderBudget()
+	fw.CurrentCase = map[string]interface{}{"render": entry, "data": goData(d), "sources": lastSources}
 	r := tofu.NewRenderer(entry)
 	if ij != nil {
 		r.Inject(toData(*ij).(data.Map))
